@@ -27,6 +27,12 @@ def atom_src(sp, a, cname):
     if k == "suflit":
         return "%d%s" % (v, ty)
     if k == "const":
+        if sp["name"] == "const_named_max":
+            return "MAX"
+        if sp["name"] == "const_named_min":
+            return "MIN"
+        if sp["name"] in ("path_max", "neg_path_max"):
+            return "limits::MAX"
         if sp["name"] == "tmin":
             return "%s::MIN" % ty
         if sp["name"] == "tmax":
@@ -50,7 +56,13 @@ def spelling_src(sp):
     def lit(v):
         return ("%d.0" % v) if flt else str(v)
     text = "-" if sp["neg"] else ""
-    if sp["a1"]["k"] in ("const", "parenc") and sp["name"] not in ("tmin", "tmax"):
+    if sp["name"] == "const_named_max":
+        items.append("const MAX: %s = %s;" % (ty, lit(sp["a1"]["v"])))
+    elif sp["name"] == "const_named_min":
+        items.append("const MIN: %s = %s;" % (ty, lit(sp["a1"]["v"])))
+    elif sp["name"] in ("path_max", "neg_path_max"):
+        items.append("pub mod limits { pub const MAX: %s = %s; }" % (ty, lit(sp["a1"]["v"])))
+    elif sp["a1"]["k"] in ("const", "parenc") and sp["name"] not in ("tmin", "tmax"):
         items.append("const K: %s = %s;" % (ty, lit(sp["a1"]["v"])))
     if sp["a1"]["k"] == "call":
         items.append("const fn five() -> %s { %s }" % (ty, lit(sp["a1"]["v"])))
@@ -71,9 +83,9 @@ def spelling_decls(spells):
             denote = REAL_LIMITS[ty][0 if sp["name"] == "tmin" else 1]
             op = dict(op, v=denote)
         fam = "float" if ty == "f64" else "int"
-        for kind in ("greater_or_equal", "less"):
+        for kind in ("greater_or_equal", "less", "greater", "less_or_equal"):
             items, text = spelling_src(sp)
-            did = "sp%03d_%s" % (i, "ge" if kind == "greater_or_equal" else "lt")
+            did = "sp%03d_%s" % (i, {"greater_or_equal": "ge", "less": "lt", "greater": "gt", "less_or_equal": "le"}[kind])
             src = "\n".join(items) + "\n#[nutype(\n    validate(%s = %s),\n    derive(Debug, Clone, Copy, PartialEq)\n)]\npub struct Nt(%s);\n" % (kind, text, ty)
             b = f_bits("f64", float(denote)) if fam == "float" else denote
             marks = {denote, op["v"], 0, -denote}
